@@ -145,6 +145,8 @@ func run(c *fw.Ctx) {
 	carriedPart(c, mine)
 	// ... and all the way into the EVM (block executor: decode, fee pre-check, vm.Call)
 	evmPart(c, mine)
+	// amount strings parsed where the ledger consumes them (operator transfer through the block executor)
+	transferPart(c, mine)
 	// token balances re-scaled at the account database's boundary, every decimal count
 	ftPart(c, mine)
 
@@ -316,6 +318,11 @@ func replay(c *fw.Ctx, raw json.RawMessage) {
 		json.Unmarshal(raw, &fc)
 		carriedSetup()
 		ftOne(c, fc.Dec, fc.X, fc.Y, fc.Z)
+	case "transfer":
+		var tc transferCase
+		json.Unmarshal(raw, &tc)
+		carriedSetup()
+		transferOne(c, tc.S)
 	case "evm":
 		var ec evmCase
 		json.Unmarshal(raw, &ec)
